@@ -2,7 +2,7 @@
    Statements about the RN instance of Model/Pbox.v (frechet_op), for any number of steps n,
    every selection of one point per focal step and every permutation coupling. *)
 From Coq Require Import Reals Lra List Permutation.
-From PUN Require Import Base.Num Base.Sort Model.Interval Model.Pbox Proofs.ListR Proofs.PboxWF Proofs.Frechet Proofs.Tight Proofs.Encl Model.ArrayOps Gen.GenKernels Proofs.Kernels Model.PboxArith Gen.GenGlue Proofs.Glue.
+From PUN Require Import Base.Num Base.Sort Model.Interval Model.Pbox Proofs.ListR Proofs.PboxWF Proofs.Frechet Proofs.Tight Proofs.Encl Model.ArrayOps Gen.GenKernels Proofs.Kernels Model.PboxArith Gen.GenGlue Proofs.Glue Proofs.Compose Proofs.ComposeOps Proofs.ComposeAll.
 From Coq Require Import Lia.
 Import ListNotations.
 Open Scope R_scope.
@@ -159,3 +159,53 @@ Print Assumptions C02_encloses_opposite.
 Print Assumptions C02_encloses_independent.
 Print Assumptions C02_kernel_is_translated.
 Print Assumptions C02_product_is_translated.
+
+(* ---------------------------------------------------------------------------------------------------------------------------------------
+   COMPOSITIONAL FORM (Proofs/Compose*.v).  A p-box BOUNDS a sample u - one value per equally likely outcome of an underlying space -
+   when the sorted sample lies step by step inside it.  Two samples u, v bounded by two operands, in ANY joint order, are exactly "one
+   value from each probability step of each operand, coupled in any way that preserves the marginals".  The statements below have the same
+   form in hypothesis and conclusion, so they chain through any expression: intermediate results are dependent on each other in arbitrary
+   ways and the bounds stay valid. *)
+
+(* the Frechet convolution: any operation nondecreasing on an upward-closed domain *)
+Theorem C02_frechet_composes (op : R -> R -> R) (D : R -> Prop) (XL XR YL YR u v : list R) :
+  (forall a a', D a -> a <= a' -> D a') ->
+  (forall a a' b b', D a -> D b -> a <= a' -> b <= b' -> op a b <= op a' b') ->
+  length YL = length XL ->
+  (forall j, (j < length XL)%nat -> D (nth j XL 0)) -> (forall j, (j < length XL)%nat -> D (nth j YL 0)) ->
+  bounds XL XR u -> bounds YL YR v ->
+  bounds (fst (frechet_op RN op XL XR YL YR)) (snd (frechet_op RN op XL XR YL YR)) (map2 op u v).
+Proof. exact (frechet_bounds op D XL XR YL YR u v). Qed.
+
+(* the four operations of the model under no dependence assumption, operands of ANY sign: whenever an operation returns a p-box, that
+   p-box is well formed and bounds the sample of outcomes.  For x this covers the whole routing of frechet_pbox_mul - classic, negative,
+   and the zero-straddling route (naive bound over the n*n pairwise products, Balch product with its shifted operands, imposition) -
+   which was justified by the oracle only before; / is x by the reciprocal, - is + of the negation. *)
+Theorem C02_operations_sound steps plo phi (p q : list R * list R) (u v : list R) r : (0 < steps)%nat ->
+  snd_ steps p u -> snd_ steps q v ->
+  (padd RN steps plo phi DF p q = Ok r -> snd_ steps r (map2 Rplus u v)) /\
+  (psub RN steps plo phi DF p q = Ok r -> snd_ steps r (map2 Rminus u v)) /\
+  (pmul RN steps plo phi DF p q = Ok r -> snd_ steps r (map2 Rmult u v)) /\
+  (pdiv RN steps plo phi DF p q = Ok r -> snd_ steps r (map2 Rdiv u v)).
+Proof.
+  intros Hs Sp Sq. split; [|split; [|split]]; intros E.
+  - eapply add_sound; eauto.
+  - eapply sub_sound; eauto.
+  - eapply mul_sound; eauto.
+  - eapply div_sound; eauto.
+Qed.
+
+(* the hypotheses are satisfiable: a two-step p-box straddling zero and a sample listed in decreasing order *)
+Example C02_bounded_sample : snd_ 2 ([-1; 1], [0; 2]) [3 / 2; -1 / 2].
+Proof.
+  split.
+  - constructor; cbn [fst snd]; try reflexivity; try (apply nth_Rsorted; intros [|[|i]] [|[|j]] H; cbn in *; try lia; lra).
+    repeat constructor; lra.
+  - split; [reflexivity|]. split; [reflexivity|]. intros s Hs Hss i Hi. cbn [fst snd length] in *.
+    assert (E : s = [-1 / 2; 3 / 2]).
+    { apply Rsorted_perm_eq; auto; [apply nth_Rsorted; intros [|[|a]] [|[|b]] H; cbn in *; try lia; lra|].
+      eapply Permutation_trans; [exact Hs|]. apply perm_swap. }
+    subst s. destruct i as [|[|i]]; cbn [nth]; try lia; lra.
+Qed.
+Print Assumptions C02_frechet_composes.
+Print Assumptions C02_operations_sound.
